@@ -20,7 +20,8 @@ vars == <<hist, nt, open, done>>
 TickCharArgs == {<<>>, <<1>>, <<1, 2>>, <<1, 2, 3>>} \cup (IF Level >= 2 THEN {<<6>>, <<4>>, <<5, 5>>} ELSE {})
 TickStringArgs == {<<>>, << <<1>> >>, << <<1>>, <<2>> >>, << <<1>>, <<2>>, <<3>> >>}
                   \cup (IF Level >= 2 THEN {<< <<>>, <<>> >>, << <<1, 2>> >>, << <<4>>, <<1>> >>} ELSE {})
-ProgressArgs == {<<>>, <<1>>, <<1, 3>>, <<1, 2, 3>>, <<1, 4>>, <<5, 5>>}
+ProgressArgs == {<<>>, <<1>>, <<1, 3>>, <<1, 2, 3>>, <<1, 4>>, <<5, 5>>,
+                 <<1, 2, 4>>, <<1, 2, 4, 7>>, <<4, 7, 1>>}        \* unequal widths that fall between pairs / in an odd remainder
                 \cup (IF Level >= 2 THEN {<<1, 2, 2, 3>>, <<4, 7>>, <<4, 7, 4>>, <<4, 1, 1>>, <<5, 5, 5>>, <<5, 1>>, <<6, 1>>, <<6>>, <<1, 2, 3, 4>>} ELSE {})
 
 Calls == {[op |-> "template", tpl |-> t] : t \in Tpls}
